@@ -523,12 +523,14 @@ func c04Check(c *sim.Ctx, w *world.World) {
 					detail["got"] = sq.FmtRow(r.Rows[0])
 					sig := "lookup-values:" + kind
 					for i := range want {
-						if !valEqRelaxed(want[i], r.Rows[0][i]) && classify(t, cols[i], want[i], r.Rows[0][i]) == "default-affinity" {
-							sig = "value-mismatch:default-affinity"
+						if !valEqRelaxed(want[i], r.Rows[0][i]) {
+							if cl := classify(t, cols[i], want[i], r.Rows[0][i]); cl == "default-affinity" || cl == "default-true-false" {
+								sig = "default-literal"
+							}
 						}
 					}
-					if sig == "value-mismatch:default-affinity" {
-						c.Inc("default_affinity_seen", 1) // C01's known finding, not this property's subject
+					if sig == "default-literal" {
+						c.Inc("default_literal_findings_seen", 1) // C01's findings about DEFAULT literals, not this property's subject
 						continue
 					}
 					c.Fail("wrong-row", sig, fmt.Sprintf("%s: want %s got %s", op.String(), sq.FmtRow(want), sq.FmtRow(r.Rows[0])), detail)
